@@ -52,8 +52,16 @@ theorem RefExact.lookup {m : Mgr} {ext : Nat → Nat} (h : RefExact m ext) (k : 
 `_init_terminal` gives to node 1 is accounted for by `RefExact` itself) -/
 def hext (a : AMgr) : Nat → Nat := fun k => hcount a.handles k
 
-/-- `off = true` : dynamic reordering is not enabled -/
-def ModeOK (off : Bool) (m : Mgr) : Prop := off = true → m.lastLen = none
+/-- `off = true` : dynamic reordering is not enabled;  `off = false` : it may be enabled, and there
+are at least two variables (with one variable sifting raises `ValueError`, C07
+`sift_single_variable_raises`, so an operation that triggers reordering would fail) -/
+def ModeOK (off : Bool) (m : Mgr) : Prop :=
+  (off = true → m.lastLen = none) ∧ (off = false → 2 ≤ m.nvars)
+
+/-- a step that keeps the switch and does not lose variables keeps the mode -/
+theorem ModeOK.transfer {off : Bool} {m m' : Mgr} (h : ModeOK off m) (hl : m'.lastLen = m.lastLen)
+    (hn : m.nvars ≤ m'.nvars) : ModeOK off m' :=
+  ⟨fun ho => by rw [hl]; exact h.1 ho, fun ho => Nat.le_trans (h.2 ho) hn⟩
 
 /-- the part of the invariant that speaks about the wrapped manager alone, relative to a
 ledger `ext` of references held from outside: the manager invariant, the name maps (C14), exact
@@ -89,9 +97,6 @@ theorem AInv.inv {a : AMgr} (h : AInv off a) : Inv a.m := h.minv.inv
 theorem AInv.order {a : AMgr} (h : AInv off a) : OrderOK a.m.tbl := h.minv.order
 theorem AInv.counts {a : AMgr} (h : AInv off a) : RefExact a.m (hext a) := h.minv.counts
 theorem AInv.mode {a : AMgr} (h : AInv off a) : ModeOK off a.m := h.minv.mode
-
-theorem AInv.weaken {a : AMgr} (h : AInv off a) : AInv false a :=
-  ⟨⟨h.inv, h.order, h.counts, h.minv.ctx, h.minv.sched, h.minv.roots, fun h => nomatch h⟩, h.hmem⟩
 
 theorem hext_pos_of_handle (a : AMgr) (h : Nat) (u : Int) (hh : a.handles[h]? = some u) :
     0 < hext a u.natAbs := hcount_pos_of_handle a.handles h u hh
@@ -402,15 +407,15 @@ theorem wrapResult_keeps {core : M Int} (hs : CoreKeeps off core) (h : Nat) :
     AKeeps off h (wrapResult h core) := fun a => wrapResult_keepsAt a (hs.at a.m) h
 
 /-- `Function(r, bdd)` after a core operation (`Function._apply`) -/
-theorem liftM_wrapF_keeps {core : M Int} (hs : CoreKeeps off core) (h : Nat) :
-    AKeeps off h (do let r ← AM.liftM core; wrapF h r; return r) := by
-  intro a hi hfr r a' he
+theorem liftM_wrapF_keepsAt {core : M Int} (a : AMgr) (hs : CoreKeepsAt off a.m core) (h : Nat) :
+    AKeepsAt off a h (do let r ← AM.liftM core; wrapF h r; return r) := by
+  intro hi hfr r a' he
   change AM.bind' (AM.liftM core) (fun r => AM.bind' (wrapF h r) (fun _ => AM.pure' r)) a = _ at he
   unfold AM.bind' AM.liftM at he
   cases hop : core a.m with
   | mk r0 m' =>
     rw [hop] at he
-    obtain ⟨h1, h3⟩ := hs.keeps a.m (hext a) hi.minv r0 m' hop
+    obtain ⟨h1, h3⟩ := hs (hext a) hi.minv r0 m' hop
     obtain ⟨i1, hd⟩ := hi.after_core h1 h3
     cases r0 with
     | error e =>
@@ -427,6 +432,10 @@ theorem liftM_wrapF_keeps {core : M Int} (hs : CoreKeeps off core) (h : Nat) :
           cases rw' <;> simp only [AM.pure'] at he <;> cases he <;> rfl
         subst this
         exact ⟨i2, hfr2, fun j u hj => by rw [t2]; exact hd j u hj⟩
+
+theorem liftM_wrapF_keeps {core : M Int} (hs : CoreKeeps off core) (h : Nat) :
+    AKeeps off h (do let r ← AM.liftM core; wrapF h r; return r) :=
+  fun a => liftM_wrapF_keepsAt a (hs.at a.m) h
 
 /-! ### reads -/
 
@@ -542,6 +551,47 @@ theorem aIte_keeps (hs : ∀ g u v, CoreKeeps off (ite g u v)) (hg hu hv : Nat) 
   refine AKeeps.bind_read (nodeIn_read hu) fun u => ?_
   refine AKeeps.bind_read (nodeIn_read hv) fun v => ?_
   exact wrapResult_keeps (hs g u v) h
+
+/-- a read followed by an operation, for one start state: the operation is only needed for the
+values that the read returns in this state -/
+theorem AKeepsAt.bind_read {x : AM α} {f : α → AM β} {h : Nat} (a : AMgr) (hx : ARead x)
+    (hf : ∀ v, (x a).1 = .ok v → AKeepsAt off a h (f v)) : AKeepsAt off a h (x >>= f) := by
+  intro hi hfr r a' he
+  have h2 := hx a
+  change AM.bind' x f a = (r, a') at he
+  unfold AM.bind' at he
+  cases hxa : x a with
+  | mk r0 a1 =>
+    rw [hxa] at he h2
+    simp only at h2
+    subst h2
+    cases r0 with
+    | error e =>
+      simp only at he
+      cases he
+      exact ⟨hi, fun _ _ => rfl, fun j u hj => ⟨hi.hmem j u hj, fun _ => rfl⟩⟩
+    | ok v =>
+      simp only at he
+      exact hf v (by rw [hxa]) hi hfr r a' he
+
+theorem nodeSame_handle (hu : Nat) (a : AMgr) (u : Int) (h : (nodeSame hu a).1 = .ok u) :
+    a.handles[hu]? = some u := by
+  unfold nodeSame at h
+  cases hh : a.handles[hu]? with
+  | some v => rw [hh] at h; simp only at h; cases h; rfl
+  | none =>
+    rw [hh] at h
+    simp only at h
+    cases hf : a.foreign[hu]? with
+    | none => rw [hf] at h; cases h
+    | some w => rw [hf] at h; cases h
+
+theorem nodeOwn_handle (hu : Nat) (a : AMgr) (u : Int) (h : (nodeOwn hu a).1 = .ok u) :
+    a.handles[hu]? = some u := by
+  unfold nodeOwn at h
+  cases hh : a.handles[hu]? with
+  | some v => rw [hh] at h; simp only at h; cases h; rfl
+  | none => rw [hh] at h; simp at h
 
 /-- the operand that passed the `u in self` test is a stored node -/
 theorem nodeIn_ok (hu : Nat) (a a' : AMgr) (u : Int) (h : nodeIn hu a = (.ok u, a')) :
@@ -678,6 +728,29 @@ theorem AKeeps.then_read {x : AM α} {f : α → AM β} {h : Nat} (hx : AKeeps o
       subst h2
       exact k
 
+/-- the same for one start state -/
+theorem AKeepsAt.then_read' {x : AM α} {f : α → AM β} {h : Nat} (a : AMgr) (hx : AKeepsAt off a h x)
+    (hf : ∀ v, ARead (f v)) : AKeepsAt off a h (x >>= f) := by
+  intro hi hfr r a' he
+  change AM.bind' x f a = (r, a') at he
+  unfold AM.bind' at he
+  cases hxa : x a with
+  | mk r0 a1 =>
+    rw [hxa] at he
+    have k := hx hi hfr r0 a1 hxa
+    cases r0 with
+    | error e =>
+      simp only at he
+      cases he
+      exact k
+    | ok v =>
+      simp only at he
+      have h2 := hf v a1
+      rw [he] at h2
+      simp only at h2
+      subst h2
+      exact k
+
 theorem wrapF_keeps (h : Nat) (u : Int) : AKeeps off h (wrapF h u) := by
   intro a hi hfr r a' he
   obtain ⟨i2, t2, hfr2, _⟩ := wrap_total a h u hi hfr r a' (Or.inr he)
@@ -752,11 +825,11 @@ theorem configure_keeps (r : Option Bool) (hr : off = true → r ≠ some true) 
     | true =>
       change (Except.ok m.lastLen.isSome, { m with lastLen := some (max Gen.reorderStarts m.len) }) = _ at he
       cases he
-      exact key _ (fun ho => absurd rfl (hr ho))
+      exact key _ ⟨fun ho => absurd rfl (hr ho), hm.mode.2⟩
     | false =>
       change (Except.ok m.lastLen.isSome, { m with lastLen := none }) = _ at he
       cases he
-      exact key _ (fun _ => rfl)
+      exact key _ ⟨fun _ => rfl, hm.mode.2⟩
 
 theorem aConfigure_keeps (r : Option Bool) (hr : off = true → r ≠ some true) (h : Nat) :
     AKeeps off h (aConfigure r) :=
